@@ -277,6 +277,20 @@ func registerFSStubs(ex *Exec) {
 		return &TupleV{E: []Value{mergeV(fail, Value(&SliceV{Obj: 0, Len: bv64(0)}), data), mergeV(fail, &IfaceV{T: nil, V: ex.newOpaque("error")}, Nil)}}
 	}
 	S["os.Stat"] = func(ex *Exec, st *State, site ssa.Instruction, fn *ssa.Function, args []Value) Value {
+		if sv, ok := args[0].(*StrV); ok {
+			if _, conc := sv.Concrete(); !conc {
+				// a path that is not a concrete string (e.g. the name carried by a watcher event) is outside the
+				// file-system model: the answer is arbitrary (absent, or present with any kind and size)
+				absent := ex.freshBool("stat_absent")
+				info := ex.newOpaque("FileInfo")
+				info.Data["isdir"] = ex.freshBool("stat_isdir")
+				sz := ex.freshBV("stat_size", 64)
+				st.assume(smt.Sge(sz, bv64(0)))
+				info.Data["size"] = sz
+				info.Data["name"] = args[0]
+				return &TupleV{E: []Value{mergeV(absent, Value(Nil), Value(&IfaceV{T: nil, V: info})), mergeV(absent, ex.fsErr(st, true), Value(Nil))}}
+			}
+		}
 		p := concreteStrArg(args[0], "os.Stat path")
 		_, n := ex.fsNodeOf(st, p)
 		isAbsent := smt.Eq(nodeKind(n), smt.Const(8, fsAbsent))
@@ -446,6 +460,55 @@ func registerFSStubs(ex *Exec) {
 		}
 		id := ex.newObj(st, &ArrayV{E: e})
 		return &TupleV{E: []Value{&SliceV{Obj: id, Len: ln, Cap: fsMaxLen, MaxLen: 2}, Nil}}
+	}
+	// bytes.TrimSpace on a short slice: leading and trailing ASCII white space removed (the two-byte UTF-8 spaces
+	// U+0085 and U+00A0 the real function also trims are not modelled); the result is a fresh slice
+	S["bytes.TrimSpace"] = func(ex *Exec, st *State, site ssa.Instruction, fn *ssa.Function, args []Value) Value {
+		return ex.withChoice(st, args[0], func(st *State, v Value) Value {
+			a := v.(*SliceV)
+			el := ex.sliceElems(st, a)
+			n := len(el)
+			if n > 8 {
+				panic(unsupported("bytes.TrimSpace on a slice longer than 8 bytes"))
+			}
+			isWS := func(b *smt.Term) *smt.Term {
+				r := smt.Eq(b, smt.Const(8, ' '))
+				for _, c := range []uint64{'\t', '\n', '\v', '\f', '\r'} {
+					r = smt.Or(r, smt.Eq(b, smt.Const(8, c)))
+				}
+				return r
+			}
+			// start = number of leading white-space bytes within the length
+			start := bv64(0)
+			allWS := smt.True
+			for i := 0; i < n; i++ {
+				allWS = smt.And(allWS, smt.And(smt.Ult(bv64(int64(i)), a.Len), isWS(el[i].(*smt.Term))))
+				start = smt.Ite(allWS, bv64(int64(i+1)), start)
+			}
+			// end = length minus the number of trailing white-space bytes (not below start)
+			// end = the smallest k such that bytes k..len-1 are all white space (not below start)
+			var end *smt.Term
+			end = a.Len
+			for k := n; k >= 0; k-- {
+				kk := bv64(int64(k))
+				tail := smt.Ule(kk, a.Len)
+				for i := k; i < n; i++ {
+					tail = smt.And(tail, smt.Or(smt.Not(smt.Ult(bv64(int64(i)), a.Len)), isWS(el[i].(*smt.Term))))
+				}
+				end = smt.Ite(tail, kk, end)
+			}
+			end = smt.Ite(smt.Ult(end, start), start, end)
+			out := make([]Value, n)
+			for i := 0; i < n; i++ {
+				var r *smt.Term = smt.Const(8, 0)
+				for sft := n - 1 - i; sft >= 0; sft-- {
+					r = smt.Ite(smt.Eq(start, bv64(int64(sft))), el[i+sft].(*smt.Term), r)
+				}
+				out[i] = r
+			}
+			id := ex.newObj(st, &ArrayV{E: out})
+			return &SliceV{Obj: id, Len: smt.Sub(end, start), Cap: n, MaxLen: n}
+		})
 	}
 	S["bytes.Equal"] = func(ex *Exec, st *State, site ssa.Instruction, fn *ssa.Function, args []Value) Value {
 		a, b := args[0].(*SliceV), args[1].(*SliceV)
